@@ -20,6 +20,8 @@ pub const VARIANT: &str = if cfg!(feature = "macro_cfg_dyn_hydrate") {
     "dyncsr"
 } else if cfg!(feature = "macro_cfg_misc") {
     "misc"
+} else if cfg!(feature = "macro_cfg_bare") {
+    "bare"
 } else {
     ""
 };
